@@ -26,13 +26,14 @@ type Op struct {
 	Arg    string            `json:"arg"`              // media type, pattern, or query string
 	Params map[string]string `json:"params,omitempty"` // MinifyMimetype only
 	Input  string            `json:"input,omitempty"`
+	Fail   string            `json:"fail,omitempty"` // registrations: the stub declines with ErrNotExist ("notexist") or fails with its own error ("other") without writing
 }
 
 type Case struct {
 	Ops []Op `json:"ops"`
 }
 
-const rule = "cases = histories of up to 30 registrations (literal/func/pattern/command, overlapping patterns, re-registration) interleaved with queries (Match/Minify/MinifyMimetype/Bytes/String) over media type strings with case changes, spaces and parameters; oracle = reference model (literal map, ordered pattern list, split at first ';') with recording stubs that prove which registration served and with which params; distinct by hash of the history; non-trivial = some query in the history had at least two registrations able to serve it"
+const rule = "cases = histories of up to 30 registrations (literal/func/pattern/command, overlapping patterns, re-registration) interleaved with queries (Match/Minify/MinifyMimetype/Bytes/String) over media type strings with case changes, spaces and parameters; oracle = reference model (literal map, ordered pattern list, split at first ';') with recording stubs that prove which registration served and with which params; a third of the stubs fail without writing, with ErrNotExist (a delegating minifier whose nested call found nothing) or with their own error, and that error is then the result of the call; distinct by hash of the history; non-trivial = some query in the history had at least two registrations able to serve it"
 
 var types = []string{"text/html", "text/css", "text/x-tmpl", "application/json", "application/ld+json", "image/svg+xml", "text/plain", "TEXT/HTML", "text/*", "*/*", "application/x-javascript", "a/b", "js", "*", "", "a", "md", "x/", "css"}
 var patterns = []string{"^text/", "/x-.*$", "[/+]json$", ".*", "^text/(html|css)$", "xml$", "^application/", "^TEXT/", "/\\*$", "html", "^[a-z]*$", "^\\*$", "^.?.?$"}
@@ -98,12 +99,31 @@ func fmtParams(p map[string]string) string {
 	return sb.String()
 }
 
-type stub struct{ id int }
+type stub struct {
+	id   int
+	fail string
+}
+
+var errStub = errors.New("stub failed")
+
+func (s stub) err() error {
+	switch s.fail {
+	case "notexist":
+		// what a delegating minifier returns when the nested call finds nothing
+		return minify.ErrNotExist
+	case "other":
+		return errStub
+	}
+	return nil
+}
 
 func stubOut(id int, params map[string]string, in []byte) string {
 	return fmt.Sprintf("[%d|%s|%s]", id, fmtParams(params), in)
 }
 func (s stub) Minify(m *minify.M, w io.Writer, r io.Reader, params map[string]string) error {
+	if e := s.err(); e != nil {
+		return e
+	}
 	b, _ := io.ReadAll(r)
 	_, err := io.WriteString(w, stubOut(s.id, params, b))
 	return err
@@ -121,6 +141,7 @@ type mreg struct {
 	isCmd bool
 	re    *regexp.Regexp
 	src   string
+	fail  string
 }
 
 func checkCase(c Case) (nontrivial bool, err error) {
@@ -142,11 +163,11 @@ func checkCase(c Case) (nontrivial bool, err error) {
 		id := i + 1
 		switch op.Op {
 		case "Add":
-			m.Add(op.Arg, stub{id})
-			literal[op.Arg] = mreg{id: id}
+			m.Add(op.Arg, stub{id, op.Fail})
+			literal[op.Arg] = mreg{id: id, fail: op.Fail}
 		case "AddFunc":
-			m.AddFunc(op.Arg, stub{id}.Minify)
-			literal[op.Arg] = mreg{id: id}
+			m.AddFunc(op.Arg, stub{id, op.Fail}.Minify)
+			literal[op.Arg] = mreg{id: id, fail: op.Fail}
 		case "AddCmd":
 			m.AddCmd(op.Arg, exec.Command("/bin/sh", "-c", fmt.Sprintf("printf cmd%d:; cat", id)))
 			literal[op.Arg] = mreg{id: id, isCmd: true}
@@ -157,13 +178,13 @@ func checkCase(c Case) (nontrivial bool, err error) {
 			}
 			switch op.Op {
 			case "AddRegexp":
-				m.AddRegexp(re, stub{id})
+				m.AddRegexp(re, stub{id, op.Fail})
 			case "AddFuncRegexp":
-				m.AddFuncRegexp(re, stub{id}.Minify)
+				m.AddFuncRegexp(re, stub{id, op.Fail}.Minify)
 			default:
 				m.AddCmdRegexp(re, exec.Command("/bin/sh", "-c", fmt.Sprintf("printf cmd%d:; cat", id)))
 			}
-			pats = append(pats, mreg{id: id, re: re, src: op.Arg, isCmd: op.Op == "AddCmdRegexp"})
+			pats = append(pats, mreg{id: id, re: re, src: op.Arg, isCmd: op.Op == "AddCmdRegexp", fail: map[bool]string{false: op.Fail}[op.Op == "AddCmdRegexp"]})
 		default:
 			// query
 			var mt string
@@ -214,8 +235,10 @@ func checkCase(c Case) (nontrivial bool, err error) {
 					return nontrivial, fmt.Errorf("%s: returned params %q, want %q", where, fmtParams(gotParams), fmtParams(params))
 				}
 				var w bytes.Buffer
-				if e := f(m, &w, strings.NewReader(in), gotParams); e != nil {
-					return nontrivial, fmt.Errorf("%s: matched minifier failed: %v", where, e)
+				if e := f(m, &w, strings.NewReader(in), gotParams); e != (stub{fail: served.fail}).err() {
+					return nontrivial, fmt.Errorf("%s: matched minifier returned %v, registration #%d returns %v", where, e, served.id, (stub{fail: served.fail}).err())
+				} else if e != nil {
+					continue
 				}
 				if want := expect(*served, params, in); w.String() != want {
 					return nontrivial, fmt.Errorf("%s: matched minifier produced %q, a call would use %q", where, w.String(), want)
@@ -234,6 +257,13 @@ func checkCase(c Case) (nontrivial bool, err error) {
 					}
 					if w.calls != 0 {
 						return nontrivial, fmt.Errorf("%s: wrote %q although no minifier exists", where, w.String())
+					}
+					continue
+				}
+				if want := (stub{fail: served.fail}).err(); want != nil {
+					// the registration that serves the type failed: its error is the result, nobody else is asked
+					if !errors.Is(e, want) || w.calls != 0 {
+						return nontrivial, fmt.Errorf("%s: registration #%d serves it and returns %v without writing; got error %v, output %q", where, served.id, want, e, w.String())
 					}
 					continue
 				}
@@ -259,6 +289,12 @@ func checkCase(c Case) (nontrivial bool, err error) {
 					}
 					continue
 				}
+				if want := (stub{fail: served.fail}).err(); want != nil {
+					if !errors.Is(e, want) || got != in {
+						return nontrivial, fmt.Errorf("%s: registration #%d serves it and returns %v; want (original, that error), got (%q, %v)", where, served.id, want, got, e)
+					}
+					continue
+				}
 				if e != nil {
 					return nontrivial, fmt.Errorf("%s: unexpected error %v", where, e)
 				}
@@ -274,14 +310,21 @@ func checkCase(c Case) (nontrivial bool, err error) {
 var opKinds = []string{"Minify", "AddRegexp", "Add", "Add", "AddFunc", "AddFunc", "AddRegexp", "AddRegexp", "AddRegexp", "AddFuncRegexp", "AddFuncRegexp", "AddFuncRegexp", "AddCmdRegexp",
 	"Match", "Match", "Match", "Match", "Minify", "Minify", "Minify", "Minify", "Minify", "MinifyMimetype", "MinifyMimetype", "Bytes", "Bytes", "String", "String", "AddCmd"}
 
+func genFail(t *rapid.T, k string) string {
+	if strings.Contains(k, "Cmd") {
+		return ""
+	}
+	return rapid.SampledFrom([]string{"", "", "", "", "notexist", "other"}).Draw(t, "fail")
+}
+
 func genOp(t *rapid.T) Op {
 	k := rapid.SampledFrom(opKinds).Draw(t, "opkind")
 	in := rapid.SampledFrom([]string{"", "x", "in put", "<a> b"}).Draw(t, "input")
 	switch k {
 	case "Add", "AddFunc", "AddCmd":
-		return Op{Op: k, Arg: rapid.SampledFrom(types).Draw(t, "type")}
+		return Op{Op: k, Arg: rapid.SampledFrom(types).Draw(t, "type"), Fail: genFail(t, k)}
 	case "AddRegexp", "AddFuncRegexp", "AddCmdRegexp":
-		return Op{Op: k, Arg: rapid.SampledFrom(patterns).Draw(t, "pat")}
+		return Op{Op: k, Arg: rapid.SampledFrom(patterns).Draw(t, "pat"), Fail: genFail(t, k)}
 	case "MinifyMimetype":
 		var p map[string]string
 		if rapid.Bool().Draw(t, "hasparams") {
